@@ -524,7 +524,7 @@ def executed_before(body, start):
     return anc - body.reachable(start)
 
 
-def reach_under(body, tb, env, start=0, stop_blocks=(), removed_edges=()):
+def reach_under(body, tb, env, start=0, stop_blocks=(), removed_edges=(), want_dead=False):
     """TABLE evaluator: blocks reachable from `start` when the atoms in env (stripped term -> value) have the given values.
     A switch whose discriminant evaluates to a definite value follows only that edge; otherwise every edge.
     Conditional evaluation: a merged value (phi) only counts the definitions made in blocks that are themselves reachable under
@@ -599,8 +599,40 @@ def reach_under(body, tb, env, start=0, stop_blocks=(), removed_edges=()):
                         if meet != old:
                             facts[s2] = meet
                             changed = True
+        if want_dead:
+            # edges leaving explored blocks that the valuation rules out (final evaluation of each switch)
+            dead = set()
+            tb.allowed = frozenset(seen | outside) if outside is not None else frozenset(seen)
+            for b in sorted(seen):
+                allsucc = body.succ(b)
+                if b in stop_blocks:
+                    dead |= {(b, s2) for s2 in allsucc}
+                    continue
+                t = body.term(b)
+                succs = allsucc
+                if t and t['k'] == 'switch':
+                    n = len(body.blocks[b]['stmts'])
+                    dt = tb.operand_term(t['discr'], b, n)
+                    fb = facts.get(b) or {}
+                    env_b = env
+                    if fb:
+                        env_b = dict(fb)
+                        env_b.update(env)
+                    v = eval_bool(dt, env_b)
+                    if v is not None:
+                        iv = int(v) if isinstance(v, bool) else v
+                        taken = None
+                        for val, bb in t['targets']:
+                            if val == iv:
+                                taken = bb
+                        if taken is None:
+                            taken = t['otherwise']
+                        succs = [taken]
+                dead |= {(b, s2) for s2 in allsucc if s2 not in succs or (b, s2) in removed_edges}
     finally:
         tb.allowed = saved
+    if want_dead:
+        return seen, frozenset(dead)
     return seen
 
 
@@ -619,35 +651,37 @@ def _back_edge_targets(body):
 def ret_values_under(body, tb, env, start=0, stop_blocks=()):
     """(block, idx, term) of the return-place definitions reachable under env, each term built from the definitions that are
     themselves reachable under env (so a value merged from several branches shows only the branch taken)."""
-    R = reach_under(body, tb, env, start=start, stop_blocks=stop_blocks)
+    R, dead = reach_under(body, tb, env, start=start, stop_blocks=stop_blocks, want_dead=True)
     outside = executed_before(body, start)
-    saved = tb.allowed
+    saved, saved_d = tb.allowed, tb.dead_edges
     out = []
     try:
         tb.allowed = frozenset(R | outside)
+        tb.dead_edges = dead or None
         for d in tb.defs(0):
             if d[0] in R:
                 out.append((d[0], d[1], norm_returned(tb.def_term(0, d))))
     finally:
-        tb.allowed = saved
+        tb.allowed, tb.dead_edges = saved, saved_d
     return out
 
 
 def calls_under(body, tb, env, start=0, stop_blocks=()):
     """(block, callee, argument terms) of the calls executed under the valuation env, in block order; the argument terms are
     built from the definitions on those paths only."""
-    R = reach_under(body, tb, env, start=start, stop_blocks=stop_blocks)
+    R, dead = reach_under(body, tb, env, start=start, stop_blocks=stop_blocks, want_dead=True)
     outside = executed_before(body, start)
-    saved = tb.allowed
+    saved, saved_d = tb.allowed, tb.dead_edges
     out = []
     try:
         tb.allowed = frozenset(R | outside)
+        tb.dead_edges = dead or None
         for bi in sorted(R):
             t = body.term(bi)
             if t and t['k'] == 'call' and not body.blocks[bi]['cleanup']:
                 out.append((bi, body.callee(bi), tb.call_args(bi)))
     finally:
-        tb.allowed = saved
+        tb.allowed, tb.dead_edges = saved, saved_d
     return out
 
 
@@ -1602,4 +1636,32 @@ def selection(F, body, tb, vec_term, use_block=None):
                 if push_block in body.reachable(body.succ(push_block)[0], removed_blocks=[h]) if body.succ(push_block) else False:
                     return None
                 return Selection(F, body, tb, 'loop', coll, header=h, some=some[0], region=region, push=push_block, value=strip_sites(_norm_elem(detry(a[3][1]))))
+    return None
+
+
+# ---------------------------------------------------------------- left fold over a collection
+def fold_form(F, b, tb):
+    """The returned value of b as a left fold over a collection: (init, step, acc) where step is the per-element term and acc the
+    marker standing for the accumulator inside it. Iterator::fold(iter(c), init, |acc, x| step) and
+    `let mut a = init; for x in c { a = step }; a` are the same fold."""
+    rt = strip_sites(tb.return_term())
+    a = m_call(rt, name='fold')
+    if a is not None and len(a) == 3 and a[2][0] == 'closure':
+        cb = F.closure(a[2][1])
+        if cb is None:
+            return None
+        step = strip_sites(TermBuilder(F, cb).return_term())
+        return strip_sites(a[1]), step, ('param', 2)
+    alts = phi_alts(rt)
+    if len(alts) == 2:
+        rec = [x for x in alts if contains(x, lambda y: y == ('rec',))]
+        base = [x for x in alts if not contains(x, lambda y: y == ('rec',))]
+        if len(rec) == 1 and len(base) == 1:
+            return base[0], rec[0], ('rec',)
+        if len(base) == 2:
+            # a loop whose step does not mention the accumulator at all: report it as a fold with a constant step
+            loops = [x for x in base if contains(x, lambda y: isinstance(y, tuple) and y and y[0] == 'elem')]
+            rest = [x for x in base if x not in loops]
+            if len(loops) == 1 and len(rest) == 1:
+                return rest[0], loops[0], ('rec',)
     return None
